@@ -1284,6 +1284,9 @@ def replay_owners(m):
             return ["C10"] if (etag in ERR_TAGS or atag in ERR_TAGS) else ["C04"]
         return ret_owner(op, etag)
     if f.startswith("clone_"):
+        if f == "clone_ord" and isinstance(exp, list) and isinstance(act, list) \
+                and sorted(json.dumps(r) for r in exp) == sorted(json.dumps(r) for r in act):
+            return ["C14", "C05"]           # the same entries in another order
         return ["C14"]
     return ["C04"]
 
@@ -1434,6 +1437,19 @@ def collect_core(prop, tier, fnd, cov):
     fulltable_into(prop, tier, fnd, cov)
     drv = stage_drive(tier)
     collect_drive(prop, drv, fnd, cov)
+    if prop == "C02":
+        # "at every point": also in the cache a leaked drain leaves behind (forget segments, shared with C17)
+        import stages_ext
+        idump = stage_dump(tier, module="MC_Iter.tla", base="MC_IterDump", name="dump-iter",
+                           segments=(("forget", 1500 if tier == "quick" else 4000),))
+        seg = stage_segments(tier, idump["forget"]["file"], "segments-forget", universe="4")
+        stages_ext.segments_into(prop, seg, fnd, cov, sys.modules[__name__], "forget")
+    if prop == "C05":
+        # the order in a cache made by clone / clone_from (two-cache tour, shared with C14)
+        import stages_ext
+        cdump = stages_ext.clone_dump(tier, sys.modules[__name__])
+        stages_ext.replay_into(prop, stage_replay(tier, dump=cdump, name="replay-clone", universe="3"),
+                               fnd, cov, sys.modules[__name__])
     if prop in ("C01", "C02", "C04", "C07"):
         scale_into(prop, tier, fnd, cov)
     if prop in ("C01", "C02"):
